@@ -12,9 +12,10 @@ import (
 )
 
 // apply engine (C07): the real entriesToApply / publishEntries of a bare RaftNode on Ready batches of committed entries.
-//   N <applied>            new node whose appliedIndex is <applied>
-//   B <first> <count>      one Ready: CommittedEntries = indexes first .. first+count-1 (each a normal entry carrying its index as id)
-//                          => <published ids, comma separated | -> <appliedIndex after> | FATAL (entriesToApply refused the batch)
+//
+//	N <applied>            new node whose appliedIndex is <applied>
+//	B <first> <count>      one Ready: CommittedEntries = indexes first .. first+count-1 (each a normal entry carrying its index as id)
+//	                       => <published ids, comma separated | -> <appliedIndex after> | FATAL (entriesToApply refused the batch)
 func runApply(args []string) {
 	in := bufio.NewScanner(os.Stdin)
 	in.Buffer(make([]byte, 1<<20), 1<<26)
